@@ -341,8 +341,10 @@ tzm_find_zn(const char *zn, size_t zz)
 	char *restrict p = zns;
 	const char *const ep = zns + znz;
 
-	for (; p < ep && *p && strncmp(p, zn, zz); p += strlen(p), p++);
-	if (*p) {
+	/* look for the whole name, not just for a name that starts with ZN */
+	for (; p < ep && *p && (strncmp(p, zn, zz) || p[zz]);
+	     p += strlen(p), p++);
+	if (p < ep && *p) {
 		/* found it, yay */
 		return p - zns;
 	}
